@@ -1,6 +1,7 @@
 package larking
 
 func init() {
+	vfHarnesses["VerifH_match_generated"] = VerifH_match_generated
 	vfHarnesses["VerifH_match_sound"] = VerifH_match_sound
 	vfHarnesses["VerifH_match_complete"] = VerifH_match_complete
 	vfHarnesses["VerifH_match_order"] = VerifH_match_order
@@ -333,4 +334,102 @@ func VerifH_match_unicode() {
 	if len(suffix) > 0 {
 		vfCover("unicode-suffix")
 	}
+}
+
+// ---- generated rule-set family (thorough tier) ------------------------------------------------------
+
+// vfGenTemplates: one template per segment-kind combination of the grammar (literal, '*', '**',
+// variable with and without pattern, verb suffix, nested field path, wildcard before a literal).
+var vfGenTemplates = []string{
+	"/aa", "/aa/bb", "/{f}", "/aa/{f}", "/{f}/bb", "/aa/*", "/aa/**", "/{f=*}", "/{f=**}",
+	"/{f=aa/*}", "/{f=aa/**}", "/aa/{f=bb/*}/cc", "/aa:vv", "/aa/{f}:vv", "/{f=aa/**}:vv",
+	"/*/bb", "/{f}/{g}", "/aa/{h.k}",
+}
+
+// vfSecondFields renames the fields of a template so that the second rule binds other fields than
+// the first (f -> g, g -> f, h.k -> h.c): captures then tell the two rules apart.
+func vfSecondFields(t string) string {
+	out := make([]byte, 0, len(t))
+	for i := 0; i < len(t); i++ {
+		c := t[i]
+		if c == '{' && i+1 < len(t) {
+			switch {
+			case t[i+1] == 'f':
+				out = append(out, '{', 'g')
+				i++
+				continue
+			case t[i+1] == 'g':
+				out = append(out, '{', 'f')
+				i++
+				continue
+			case i+3 < len(t) && t[i+1] == 'h' && t[i+2] == '.' && t[i+3] == 'k':
+				out = append(out, '{', 'h', '.', 'c')
+				i += 3
+				continue
+			}
+		}
+		out = append(out, c)
+	}
+	return string(out)
+}
+
+// vfGenBuild registers an ordered pair of templates of the generated family (methods 0 and 1, verb
+// GET) in the given order; pairs that addRule rejects (colliding bindings) are not part of the family.
+func vfGenBuild(i, j int, reversed bool) *vfBuilt {
+	set := []vfRule{{0, "GET", vfGenTemplates[i]}, {1, "GET", vfSecondFields(vfGenTemplates[j])}}
+	in := schemaRoute()
+	out := newFakeMD("vf.Resp", strField("r"))
+	descs := []*fakeMethod{{full: "vf.S.M0", in: in, out: out}, {full: "vf.S.M1", in: in, out: out}}
+	b := &vfBuilt{root: newPath()}
+	all := []vfRule{{0, "*", vfMethodName(0)}, {1, "*", vfMethodName(1)}}
+	if reversed {
+		all = append(all, set[1], set[0])
+	} else {
+		all = append(all, set[0], set[1])
+	}
+	for _, r := range all {
+		rule := vfHTTPRule(r.verb, r.tmpl)
+		if r.tmpl == vfMethodName(r.m) {
+			rule.Body = "*"
+		}
+		err := b.root.addRule(rule, descs[r.m], vfMethodName(r.m))
+		vfAssume(err == nil)
+		t, st := refParseTemplate(r.tmpl)
+		if st != refValid {
+			vfFail("generated template is not valid per the reference grammar: " + r.tmpl)
+		}
+		b.rules = append(b.rules, r)
+		b.tmpls = append(b.tmpls, t)
+	}
+	return b
+}
+
+// VerifH_match_generated (C01, C02; thorough tier): the soundness, completeness / literal-precedence
+// and registration-order obligations over EVERY ordered pair of templates of the generated family
+// (18 x 18) and every ASCII request path up to the bound.
+func VerifH_match_generated() {
+	i, j := vfChoice(len(vfGenTemplates)), vfChoice(len(vfGenTemplates))
+	a := vfGenBuild(i, j, false)
+	verb := "GET"
+	if vfBool() {
+		verb = "POST"
+	}
+	route := vfRoute(vfBound(6, 8))
+	vfCheckSound(a, route, verb)
+	vfCheckComplete(a, route, verb)
+	b := vfGenBuild(i, j, true)
+	m1, ps1, err1 := a.root.match(route, verb)
+	m2, ps2, err2 := b.root.match(route, verb)
+	vfCheck((err1 == nil) == (err2 == nil), "dispatch depends on registration order (one order dispatches, the other does not)")
+	if err1 != nil {
+		return
+	}
+	vfCheck(m1.name == m2.name, "dispatch target depends on registration order")
+	vfCheck(len(ps1) == len(ps2), "captures depend on registration order")
+	for k := range ps1 {
+		if len(ps1[k].fds) > 0 && len(ps2[k].fds) > 0 {
+			vfCheck(vfParamField(ps1[k]) == vfParamField(ps2[k]) && ps1[k].val.String() == ps2[k].val.String(), "captures depend on registration order")
+		}
+	}
+	vfCover("generated")
 }
